@@ -1,13 +1,75 @@
 /-
-Oracle ops for the `cmp` family.  Owned by the slice that models it; see AGENT_GUIDE.md.
+Oracle ops for the `cmp` family (C13): the model of `jsonwire.CompareUTF16`, the UTF-16 spec it is proved
+against, and the member sort of `mustReorderObjectsFromDecoder`.
+
+  cmp c16 <hex x> <hex y>        → -1 | 0 | 1                    Model.Compare.compareUTF16
+  cmp spec <hex x> <hex y>       → -1 | 0 | 1                    Spec.lexCmp (utf16 x) (utf16 y)
+  cmp utf16 <hex x>              → units as 4-hex-digit words joined by ',' ("-" if none)
+  cmp valid <hex x>              → 0 | 1                          Model.Utf8.valid
+  cmp sort <n> <hex name_1> … <hex name_n>   → the permutation: indices into the input, in output order, joined by ','
+  cmp msort <n> <hex name_1> <hex buf_1> …    → same for full members (name, raw buffer), via Model.Reorder.reorder
 -/
 import JsonV.Oracle.Util
+import JsonV.Model.Compare
+import JsonV.Model.Reorder
+import JsonV.Spec.Utf16Order
 
 namespace JsonV.Oracle.Cmp
-open JsonV JsonV.Oracle
+open JsonV JsonV.Oracle JsonV.Model JsonV.Spec
+
+def hex4 (n : Nat) : String :=
+  String.ofList [hexDigit (n / 4096 % 16), hexDigit (n / 256 % 16), hexDigit (n / 16 % 16), hexDigit (n % 16)]
+
+def joinNats (f : Nat → String) (l : List Nat) : String :=
+  if l.isEmpty then "-" else ",".intercalate (l.map f)
+
+def allSome {α : Type} : List (Option α) → Option (List α)
+  | [] => some []
+  | none :: _ => none
+  | some a :: rest => (allSome rest).map (a :: ·)
+
+def pairUp {α : Type} : List α → Option (List (α × α))
+  | [] => some []
+  | [_] => none
+  | a :: b :: rest => (pairUp rest).map ((a, b) :: ·)
+
+/-- position of each output member in the input (members are distinguished by position: the sort runs on
+(member, index) pairs with the comparator looking at the member only, exactly like `sortPerm`). -/
+def memberPerm (ms : List Reorder.Member) : List Nat :=
+  let tagged := ms.zipIdx
+  let sorted := if Reorder.isSorted ms then tagged
+                else tagged.mergeSort (fun a b => Reorder.memberLe a.1 b.1)
+  sorted.map (·.2)
 
 def handle (op : String) (args : List String) : String :=
   match op, args with
-  | _, _ => "ERR unimplemented"
+  | "c16", [a, b] =>
+    match bytesOfHex a, bytesOfHex b with
+    | some x, some y => toString (Compare.compareUTF16 x y)
+    | _, _ => badArgs
+  | "spec", [a, b] =>
+    match bytesOfHex a, bytesOfHex b with
+    | some x, some y => toString (Utf16Order.lexCmp (Utf16Order.utf16 x) (Utf16Order.utf16 y))
+    | _, _ => badArgs
+  | "utf16", [a] =>
+    match bytesOfHex a with
+    | some x => joinNats hex4 (Utf16Order.utf16 x)
+    | none => badArgs
+  | "valid", [a] =>
+    match bytesOfHex a with
+    | some x => boolStr (Utf8.valid x)
+    | none => badArgs
+  | "sort", n :: rest =>
+    match n.toNat?, allSome (rest.map bytesOfHex) with
+    | some n, some names => if names.length = n then joinNats toString (Reorder.sortPerm names) else badArgs
+    | _, _ => badArgs
+  | "msort", n :: rest =>
+    match n.toNat?, allSome (rest.map bytesOfHex) with
+    | some n, some bs =>
+      match pairUp bs with
+      | some ps => if ps.length = n then joinNats toString (memberPerm (ps.map (fun p => ⟨p.1, p.2⟩))) else badArgs
+      | none => badArgs
+    | _, _ => badArgs
+  | _, _ => badArgs
 
 end JsonV.Oracle.Cmp
